@@ -440,6 +440,7 @@ def layerSetDel : Entry :=
     body := A [reject (.not (mem (arg 0) (fld "names"))),
              post "LayerSet.LayerWillBeDeleted" .will (some (arg 0)) none none (mem subj (fld "names")),
              nested (set "names" (remove (fld "names") (arg 0))),
+             nested (set "order" (remove (fld "order") (arg 0))),
              post "LayerSet.LayerDeleted" .did (some (arg 0)) none none (mem subj (fld "names")),
              post "LayerSet.LayersChanged" .plain none none none (fld "names"),
              dirty] }
